@@ -48,6 +48,8 @@ def as_S(v):
         return as_S(v.cell[0])
     if type(v) is Adt and v.name == 'Box':
         return as_S(v.extra[0])
+    if type(v) is Adt and v.name == 'Cow':
+        return as_S(v.fields[0])
     raise Unmodelled('expected string/bytes, got %r' % (v,))
 
 
@@ -57,7 +59,7 @@ def good(v):
 
 # ------------------------------------------------------------------------------------------ conversions, smart pointers
 
-@model(r"<(&?(?:'\w+ )?(?:mut )?str|&?String|Arc<str>|&?Arc<str>|&&str|Box<str>|Cow<'?\w*,? ?str>) as (Into|From|ToString|AsRef|Clone|Borrow|ToOwned|Deref)(<.*>)?>::\w+")
+@model(r"<(&?(?:'\w+ )?(?:mut )?str|&?String|Arc<str>|&?Arc<str>|&&str|Box<str>) as (Into|From|ToString|AsRef|Clone|Borrow|ToOwned|Deref)(<.*>)?>::\w+")
 def m_str_conv(ex, c, a, m):
     return as_S(a[0])
 
@@ -1087,10 +1089,20 @@ def m_vacant(ex, c, a, m):
 def m_entry(ex, c, a, m):
     e = a[0]
     op = m.group(1)
-    if op in ('or_insert', 'or_insert_with'):
+    if op in ('or_insert', 'or_insert_with', 'or_default'):
         if e.variant == 'Occupied':
             return e.fields[0].fields[0]
-        v = a[1] if op == 'or_insert' else ex.call_closure(a[1], [])
+        if op == 'or_default':
+            if 'HashSet<' in c or 'HashMap<' in c.split(',', 2)[-1] or 'BTree' in c.split(',', 2)[-1]:
+                v = SymMap()
+            elif re.search(r', (u|i)(size|\d+)>', c):
+                v = 0
+            elif 'String>' in c or 'Vec<u8>>' in c:
+                v = S()
+            else:
+                raise Unmodelled('or_default for ' + c)
+        else:
+            v = a[1] if op == 'or_insert' else ex.call_closure(a[1], [])
         mp, k = e.fields[0].fields[0], e.fields[0].fields[1]
         mp.items.append([k, v])
         return Ref(mp.items[-1], 1)
@@ -1340,6 +1352,8 @@ def _dyn_call(ex, recv, trait, meth, args):
     if not isinstance(r, Ref):
         r = Ref([v], 0)
     if isinstance(v, Cursor):
+        if meth == 'read':
+            return call_model(ex, '<std::io::Cursor<Cow<[u8]>> as Read>::read', [r] + args)
         return call_model(ex, '<std::io::Cursor<Vec<u8>> as %s>::%s' % (trait, meth), [r] + args)
     if type(v) is Adt:
         f = ex.prog.by_trait_impl.get((v.name.split('::')[-1], trait.split('::')[-1], meth))
@@ -1539,3 +1553,92 @@ def m_time_cmp(ex, c, a, m):
     else:
         o = Adt('Ordering', 'Greater', [])
     return Some(o) if op == 'partial_cmp' else o
+
+
+# ------------------------------------------------------------------------------------------ rust-embed (C18)
+
+def cow(v):
+    return Adt('Cow', 'Borrowed', [v])
+
+
+@model(r'<T as RustEmbed>::iter')
+def m_embed_iter(ex, c, a, m):
+    files = ex.hooks.get('embed_files')
+    if files is None:
+        raise Unmodelled('RustEmbed model without a file set')
+    return PyIter([cow(S(k)) for k in sorted(files)])
+
+
+@model(r'<T as RustEmbed>::get')
+def m_embed_get(ex, c, a, m):
+    files = ex.hooks.get('embed_files')
+    k = as_S(a[0])
+    for path, data in sorted(files.items()):
+        if ex.branch(seq_eq(S(path), k)):
+            meta = Adt('Metadata', None, [NONE(), NONE()])
+            return Some(Adt('EmbeddedFile', None, [cow(S(data)), meta]))
+    return NONE()
+
+
+@model(r'rust_embed::Metadata::(last_modified|created)|Metadata::(last_modified|created)')
+def m_embed_meta(ex, c, a, m):
+    return NONE()
+
+
+@model(r"<Cow<'?\w*,? ?(str|\[u8\])> as (Clone|Deref|AsRef<.+>|Borrow<.+>)>::\w+|Cow::<'?\w*,? ?(str|\[u8\])>::(into_owned|as_ref|to_mut)|<&?Cow<.+> as (Into|From)<.+>>::\w+")
+def m_cow(ex, c, a, m):
+    v = d(a[0])
+    if c.endswith('::clone'):
+        return Adt('Cow', v.variant, [as_S(v)]) if type(v) is Adt else cow(as_S(v))
+    return as_S(v)
+
+
+@model(r"<(&str|String|&String) as Into<Cow<.+>>>::into|<Cow<.+> as From<(&str|String|&String)>>::from")
+def m_cow_from(ex, c, a, m):
+    return cow(as_S(a[0]))
+
+
+@model(r"<Cow<.+> as PartialEq(<.+>)?>::(eq|ne)")
+def m_cow_eq(ex, c, a, m):
+    r = seq_eq(as_S(a[0]), as_S(a[1]))
+    return r if c.endswith('eq') else znot(r)
+
+
+@model(r"<HashMap<.+> as Default>::default|<HashSet<.+> as Default>::default|<HashSet<.+> as Clone>::clone|<HashMap<.+> as Clone>::clone")
+def m_map_default(ex, c, a, m):
+    if c.endswith('clone'):
+        src = d(a[0])
+        mp = SymMap()
+        mp.items = [[k, v] for k, v in src.items]
+        return mp
+    return SymMap()
+
+
+@model(r"std::io::Cursor::<Cow<'?\w*,? ?\[u8\]>>::new")
+def m_cursor_cow(ex, c, a, m):
+    return Cursor(as_S(a[0]))
+
+
+@model(r"<std::io::Cursor<Cow<.+>> as (std::io::)?(Read|Seek)>::(read|seek)")
+def m_cursor_cow_rs(ex, c, a, m):
+    cur = d(a[0])
+    if m.group(3) == 'seek':
+        return call_model(ex, '<std::io::Cursor<Vec<u8>> as Seek>::seek', a)
+    data, pos = cur.cell['data'], cur.cell['pos']
+    buf = a[1]
+    n = len(buf.get())
+    p = ex.concretize(pos, len(data))
+    if p is None:
+        return Ok(0)
+    k = min(n, len(data) - p)
+    cur_buf = buf.get()
+    buf.set(S(tuple(data[p:p + k]) + tuple(cur_buf[k:])))
+    cur.cell['pos'] = p + k
+    return Ok(k)
+
+
+@model(r"<SystemTime as Add<Duration>>::add|Duration::from_secs")
+def m_time_add(ex, c, a, m):
+    if c.startswith('Duration'):
+        return Adt('Duration', None, [a[0]])
+    return Adt('SystemTime', None, [d(a[1]).fields[0]])
